@@ -182,6 +182,13 @@ def offset_reservation_rule(ctx: Ctx, rid: str):
         raise AnchorMissing("bookResource: start-offset reservation write not found")
 
 
+def run_extra(ctx: Ctx):
+    # ---------------------------------------------------------------- R01.8 answers never come from state that outlives the question
+    from .common import process_state_rule
+    process_state_rule(ctx, "R01.8", [ctx.repo.func("Project.schedule")],
+                       "a slot's booked total is answered from another slot's or another run's record")
+
+
 def run(ctx: Ctx):
     repo = ctx.repo
     book = repo.func("ResourceScenario.book")
@@ -372,6 +379,10 @@ def run(ctx: Ctx):
     from .c06 import precise_end_rules
     precise_end_rules(ctx, "R01.6")
     ctx.floor("R01.6", 6)
+    # ---------------------------------------------------------------- R01.7 (shared with C12): the ledger outlives the slot table
+    from .c12 import ledger_survives_prepare_rule
+    ledger_survives_prepare_rule(ctx, "R01.7")
+    ctx.floor("R01.7", 2)
     ctx.floor("R01.1", 5)
     ctx.floor("R01.2", 7)
     ctx.floor("R01.3", 2)
